@@ -87,6 +87,7 @@ type sys struct {
 	notify   chan struct{}
 	where    string // behaviour / step being replayed (diagnostics only)
 	where0   string
+	co       *coordState // non-nil: API moves go through the real coordinator where they can
 	ckFail   func() bool // seeded: should this checkpoint call report an error?
 }
 
@@ -297,6 +298,10 @@ func (y *sys) kick() { y.safeAdd(0, nil) }
 
 // callSchedule / callRelease / advance: the environment's moves, logged before and after.
 func (y *sys) callSchedule(id int, k string, e, o, last int) {
+	if y.viaCoordinator(k, e, last) {
+		y.coordSchedule(id, k, e, o, last)
+		return
+	}
 	sc, _, err := scheduler.NewSchedule(schedString(k, e), base)
 	if err != nil {
 		rt.Fatalf("c17: NewSchedule(%q): %v", schedString(k, e), err)
@@ -311,6 +316,10 @@ func (y *sys) callSchedule(id int, k string, e, o, last int) {
 }
 
 func (y *sys) callRelease(id int) {
+	if y.co != nil {
+		y.coordRelease(id)
+		return
+	}
 	y.t.Event("Call", rt.M{"t": "R", "id": id})
 	var rerr error
 	y.within("Release", func() { rerr = y.s.Release(y.real[id]) })
